@@ -38,10 +38,12 @@ def run(ctx, broken):
     groups = {}
     for line, io, mo, fa in recs:
         c = mcommon.parse_case(line)
+        if mcommon.parse_facts(fa).get("nok") != 1:
+            continue        # needle not normalised for this configuration: outside the property's quantifier
         groups.setdefault((c["cfg"], tuple(c["h"]), tuple(c["n"])), []).append((c, io.split(" ")[0]))
     for key, lst in groups.items():
         ks = {k for c, k in lst if not mcommon.known_repr(c)}
-        if len(ks) > 1 and len(res["failures"]) < 400:
+        if len(ks) > 1 and len(res["failures"]) < 5000:
             c0 = lst[0][0]
             res["failures"].append({"class": "agree", "what": "entry points / representations disagree on the decision: %s -- %s" % (
                 ", ".join("%s[%s%s]=%s" % (c["algo"], c["hr"], c["nr"], k) for c, k in lst), mcommon.show_case(c0)), "case": c0["line"]})
